@@ -47,6 +47,8 @@ def cases(tier, seed):
     nr = 300 if tier == "quick" else 150000
     out += [{"kind": "rand", "i": i, "seed": seed} for i in range(nr)]
     out += [{"kind": "ops", "i": i, "seed": seed} for i in range(30 if tier == "quick" else 3000)]
+    # sizes around the powers of two where implementations switch strategy
+    out += [{"kind": "big", "n": n, "seed": seed} for n in ([65535, 65536, 65537, 70001] if tier == "quick" else [4095, 4096, 4097, 65535, 65536, 65537, 70001, 131071, 131072, 131073, 1048577])]
     out += _embedded.assembly_cases(seed, 24 if tier == "quick" else 3000)
     return out
 
@@ -106,6 +108,30 @@ def execute(mat, ctx):
                         if len(sl):
                             ctx.nontrivial([s, a, b, c])
         ctx.sample({"kind": "exhaustive", "records": mat["words"][:3], "queries": "all words of length 0..n+2", "slices": "all a,b in [-n-2,n+2]+None, c in None,1,2,3,-1,-2"}, cap=1)
+        return
+    if kind == "big":
+        n = mat["n"]
+        rng = gen.rng_for(mat["seed"], PROP, kind, n)
+        s = gen.rand_dna(rng, n)
+        r = _rec(s, letter_annotations={})
+        rk = r >> rng.randrange(1, n)
+        d = s + s
+        qs = [s, s + s[:1], s[-7:] + s + s[:7], d, d[5:n + 5], d[n - 3:n + 9], d[n - 1:2 * n - 1] + "A", s[:9], "", s[:n - 1],
+              s[1:] + ("A" if s[0] != "A" else "C")]
+        for _ in range(6):
+            a, L = rng.randrange(n), rng.choice([1, 17, n - 1, n, n + 1, n + 13])
+            qs.append(d[a:a + L] if a + L <= 2 * n else d[a:])
+        for q in qs:
+            ctx.count("evaluations")
+            ctx.count("big_record_queries")
+            a = q in r
+            b = q in rk
+            if a != b:
+                ctx.violation("contains-rotation-dependent", "a query of %d letters in a record of %d: %r, but %r after rotating the record" % (len(q), n, a, b), n=n, qlen=len(q))
+        for a, b in ((n - 5, None), (None, 7), (n // 2, n // 2 + 11), (-3, None)):
+            r[a:b]
+        ctx.nontrivial(["big", n])
+        ctx.sample({"kind": "big", "length": n, "queries": len(qs)}, cap=4)
         return
     rng = gen.rng_for(mat["seed"], PROP, kind, mat["i"])
     if kind == "rand":
@@ -276,5 +302,33 @@ def execute(mat, ctx):
             if snap(sparse) != before:
                 ctx.violation("wrap-aliases:%s:%s-original" % (name, kind2), "editing %s of the wrapped copy of a %s record changed the original record" % (name, kind2))
                 before = snap(sparse)
+    # an original holding a value Biopython accepts but copy.deepcopy refuses (a dict view as a qualifier / annotation value):
+    # wrapping it may be refused, but a wrapper that exists must not share anything with the original
+    for where in ("qualifier", "annotation"):
+        exo = SeqRecord(Seq(s), "exo", features=[SeqFeature(FeatureLocation(0, n, 1), type="misc", qualifiers={"a": ["1"]}),
+                                                  SeqFeature(FeatureLocation(0, 1, 1), type="gene", qualifiers={"b": ["2"]})],
+                        annotations={"k": [1], "nested": {"x": [1]}})
+        if where == "qualifier":
+            exo.features[1].qualifiers["db_xref"] = {"GeneID:1": 1}.keys()
+        else:
+            exo.annotations["view"] = {"x": 1}.keys()
+        light = lambda b: ([(f.type, str(f.location), {k: (list(v) if isinstance(v, list) else repr(v)) for k, v in f.qualifiers.items()}) for f in b.features],
+                           {k: repr(v) for k, v in b.annotations.items()})
+        before = light(exo)
+        ctx.count("copy_checks")
+        try:
+            c3 = CircularRecord(exo)
+        except Exception:
+            ctx.count("wrap_refused_undeepcopyable")
+            continue
+        for name, edit in (("qualifiers", lambda: c3.features[0].qualifiers["a"].append("2")),
+                           ("feature-location", lambda: setattr(c3.features[0], "location", FeatureLocation(0, 1, -1))),
+                           ("annotations-list", lambda: c3.annotations["k"].append(2)),
+                           ("annotations-nested", lambda: c3.annotations["nested"]["x"].append(2))):
+            ctx.count("evaluations")
+            edit()
+            if light(exo) != before:
+                ctx.violation("wrap-aliases:%s:undeepcopyable-%s" % (name, where), "editing %s of the wrapped copy changed an original that holds a dict view as a %s value" % (name, where))
+                before = light(exo)
     ctx.nontrivial(["ops", s])
     ctx.sample({"kind": "ops", "record": s, "operands": sorted(operands), "edits": [e[0] for e in edits]}, cap=1)
